@@ -11,6 +11,7 @@ import DC.Model.LexerRd
 import DC.Model.LitDriver
 import DC.Model.Types
 import DC.Model.ExplainExpr
+import DC.Model.UnionGroup
 
 /-! Dispatch table of the line-protocol driver. A handler gets the op and its arguments and
 answers `none` if the op is not its own. Unknown ops answer `bad-op` (never a default value). -/
@@ -29,7 +30,8 @@ def handlers : List (String → List String → Option String) := [
   DC.LexerRd.handle,         -- c14 lexer over bufio over a scripted reader (op `lexbufio`)
   DC.Model.LitDriver.handle, -- c09 (ops `c09num`, `c09str`, `c09float`, `c09nest`, `c09dec`)
   DC.Types.handle,           -- c18 (ops `c18`, `c18ty`)
-  DC.Model.ExplainExpr.handle -- c04/c07 expression core (op `xexpr`)
+  DC.Model.ExplainExpr.handle, -- c04/c07 expression core (op `xexpr`)
+  DC.Model.UnionGroup.handle -- c07 union regrouping (op `uniongroup`)
 ]
 
 def dispatch (line : String) : String :=
